@@ -484,6 +484,32 @@ def local_defs(body, l):
     return out
 
 
+def closure_item_range(fx, cbody):
+    """for a closure body handed to an iterator adapter (map / filter / all / any / for_each / find / position ..) whose source,
+    below order- and value-preserving adapters, is a Range: the Range term (its items are what the closure's argument takes), in
+    the terms of the function that builds the closure; else None.  `filter(|x| ..)` receives `&item`: same values."""
+    if '{closure' not in cbody.name:
+        return None
+    parent_name = cbody.name.rsplit('::{closure', 1)[0]
+    pb = fx.body(parent_name)
+    if pb is None:
+        return None
+    for c in calls(pb):
+        at = arg_terms(c)
+        if len(at) < 2 or not any(isinstance(a, tuple) and a and a[0] == 'closure' and a[1] == cbody.path for a in at[1:]):
+            continue
+        if not c.callee.startswith('std::iter::Iterator::'):
+            return None
+        src = at[0]
+        while src[0] == 'call' and src[1].startswith('std::iter::Iterator::') and src[1].split('::')[-1] in (
+                'filter', 'rev', 'skip', 'take', 'step_by', 'skip_while', 'take_while', 'inspect', 'by_ref', 'peekable', 'into_iter') and src[2]:
+            src = src[2][0]
+        if src[0] == 'agg' and src[1] in ('std::ops::Range', 'std::ops::RangeInclusive'):
+            return src
+        return None
+    return None
+
+
 def deep_facts(body, bb, _depth=3):
     """facts_at, seen through materialised booleans: for `let ok = a >= 0 && a < w; if ok { .. }` the switch tests a local whose
     definitions are `false` (on the a < 0 side) and `a < w` (on the a >= 0 side); ok == true can only come from the second one,
